@@ -459,3 +459,249 @@ def inconsistent_component_material_input_is_refused(a: float, b: float, case: i
         bp = blueprint_with_isotopics(a, b, known=("U235", "U238"))
         cb = new(ComponentBlueprint, name="fuel", material="FuelMat", isotopics="MOX" if case == 1 else None)
         assert refused(lambda: cb._constructMaterial(bp, {})) == (case == 1), "O16 is in the composition but not in the problem"
+
+
+# ------------------------------------------------------------------------------------------------ block blueprint
+blockBp = repo("armi.reactor.blueprints.blockBlueprint")
+MaterialModifications = repo("armi.reactor.blueprints.assemblyBlueprint:MaterialModifications")
+ByComponentModifications = repo("armi.reactor.blueprints.assemblyBlueprint:ByComponentModifications")
+Modifications = repo("armi.reactor.blueprints.assemblyBlueprint:Modifications")
+BLK = {"armi.reactor.blueprints.blockBlueprint:yamlize": "YZ", "armi.reactor.blueprints.componentBlueprint:yamlize": "YZ",
+       "armi.reactor.blueprints.assemblyBlueprint:yamlize": "YZ", "armi.reactor.blueprints.isotopicOptions:yamlize": "YZ",
+       "armi.reactor.blueprints.gridBlueprint:yamlize": "YZ"}
+
+
+class Design:
+    """a component design as _filterMaterialInput sees it: its name"""
+
+
+@lemma(gen={"which": (0, 2)})
+def by_component_modification_wins_over_block_wide(which: int, a: float, b: float, c: float, d: float):
+    """BlockBlueprint._filterMaterialInput: a component gets every block-wide modification, overridden by the modifications
+    given for THAT component; modifications for other components do not reach it.  Stand-in: Design (a name)."""
+    which = choose(which, 0, 2)
+    name = ("fuel", "clad", "duct")[which]
+    matIn = {"byBlock": {"U235_wt_frac": a, "TD_frac": b}, "fuel": {"U235_wt_frac": c}, "clad": {"ZR_wt_frac": d}}
+    out, keys = BlockBlueprint._filterMaterialInput(matIn, new(Design, name=name))
+    if name == "fuel":
+        assert out == {"U235_wt_frac": c, "TD_frac": b} and keys == {"U235_wt_frac"}, "by component wins"
+    elif name == "clad":
+        assert out == {"U235_wt_frac": a, "TD_frac": b, "ZR_wt_frac": d} and keys == {"ZR_wt_frac"}
+    else:
+        assert out == {"U235_wt_frac": a, "TD_frac": b} and keys == set()
+    assert matIn["byBlock"] == {"U235_wt_frac": a, "TD_frac": b} and matIn["fuel"] == {"U235_wt_frac": c}, "the input is not changed"
+    out2, keys2 = BlockBlueprint._filterMaterialInput({"fuel": {"U235_wt_frac": c}}, new(Design, name=name))
+    assert out2 == ({"U235_wt_frac": c} if name == "fuel" else {}), "no block-wide part"
+
+
+def compDesign(name):
+    return new(ComponentBlueprint, name=name, shape="Circle")
+
+
+@lemma(overrides=BLK, gen={"which": (0, 3)})
+def modification_for_a_component_the_block_does_not_have_is_refused(which: int, x: float):
+    """BlockBlueprint._checkByComponentMaterialInput on a block with the components fuel and clad."""
+    which = choose(which, 0, 3)
+    blk = ymap(BlockBlueprint, [("fuel", compDesign("fuel")), ("clad", compDesign("clad"))], name="fuelBlock")
+    matIn = [{"byBlock": {"TD_frac": x}}, {"byBlock": {}, "fuel": {"TD_frac": x}, "clad": {}}, {"duct": {"TD_frac": x}},
+             {"byBlock": {}, "fuel": {}, "duct": {"TD_frac": x}}][which]
+    try:
+        blk._checkByComponentMaterialInput(matIn)
+        ok = True
+    except ValueError:
+        ok = False
+    assert ok == (which <= 1), "a by-component modification must name a component of the block"
+
+
+class GridDesignMark:
+    """a grid design: only its identity matters"""
+
+
+@lemma(overrides=BLK, gen={"which": (0, 3)})
+def block_lattice_is_the_grid_design_it_names(which: int):
+    """BlockBlueprint._getGridDesign: the grid design of that name, None without a name, KeyError for an unknown name."""
+    which = choose(which, 0, 3)
+    g1, g2 = new(GridDesignMark), new(GridDesignMark)
+    bp = new(Bp, gridDesigns={"pins": g1, "core": g2})
+    blk = ymap(BlockBlueprint, [], name="fuelBlock", gridName=("pins", "core", None, "nope")[which])
+    try:
+        g = blk._getGridDesign(bp)
+        ok = True
+    except KeyError:
+        ok = False
+    assert ok == (which != 3), "unknown specifier refused"
+    if ok:
+        assert same(g, (g1, g2, None)[which]) if which < 2 else g is None
+
+
+@lemma(gen={"n": (-3, 50), "f": (-2, 4)})
+def axial_mesh_points_times_refinement_factor(n: int, f: int):
+    """blockBlueprint._setBlueprintNumberOfAxialMeshes"""
+    try:
+        r = blockBp._setBlueprintNumberOfAxialMeshes(n, f)
+        ok = True
+    except ValueError:
+        ok = False
+    assert ok == (f > 0), "a non-positive refinement factor is refused"
+    if ok:
+        assert r == n * f
+
+
+# ------------------------------------------------------------------------------------------------ assembly blueprint
+def blockDesign(name):
+    return ymap(BlockBlueprint, [], name=name)
+
+
+def modifications(byBlock, byComponent):
+    """material modifications: {name: list} block-wide, {component: {name: list}} by component"""
+    bc = ymap(ByComponentModifications, [(c, ymap(Modifications, list(mods.items()))) for c, mods in byComponent.items()])
+    return ymap(MaterialModifications, list(byBlock.items()), byComponent=bc)
+
+
+def assemblyDesign(nb, heights, mesh, xs, mm):
+    return new(AssemblyBlueprint, name="fuelAssem", blocks=[blockDesign("b%d" % k) for k in range(nb)], height=heights,
+               axialMeshPoints=mesh, xsTypes=xs, materialModifications=mm)
+
+
+@lemma(overrides=BLK, gen={"nb": (1, 3), "which": (0, 4), "d": (-1, 1)})
+def lists_of_unequal_length_are_refused(nb: int, which: int, d: int, h: float, e: float):
+    """AssemblyBlueprint._checkParamConsistency: 1-3 blocks; ONE of the per-block lists (heights, mesh points, xs types, a
+    block-wide modification, a by-component modification) is one shorter / equal / one longer than the number of blocks:
+    accepted iff equal."""
+    nb, which, d = choose(nb, 1, 3), choose(which, 0, 4), choose(d, -1, 1)
+    n = [nb] * 5
+    n[which] = nb + d
+    mm = modifications({"U235_wt_frac": [e] * n[3]}, {"fuel": {"TD_frac": [e] * n[4]}})
+    a = assemblyDesign(nb, [h] * n[0], [1] * n[1], ["A"] * n[2], mm)
+    assert refused(a._checkParamConsistency) == (d != 0), "lists of unequal length are refused"
+    a0 = assemblyDesign(nb, [h] * nb, [1] * nb, ["A"] * nb, modifications({}, {}))
+    assert not refused(a0._checkParamConsistency), "no modifications at all: fine"
+
+
+@lemma(gen={"case": (0, 5)})
+def empty_modification_entries_are_skipped(case: int, x: float, k: int):
+    """AssemblyBlueprint._shouldMaterialModiferBeApplied: '' and None mean 'not for this block'; numbers (also 0) and other
+    strings are applied."""
+    case = choose(case, 0, 5)
+    v = ["", None, x, k, "MOX", 0.0][case]
+    assert AssemblyBlueprint._shouldMaterialModiferBeApplied(v) == (case >= 2)
+    assert AssemblyBlueprint._shouldMaterialModiferBeApplied(v) is (case >= 2), "a bool"
+
+
+class BlockProbe:
+    """the block a block design returns: records what the assembly blueprint does with it"""
+
+    def completeInitialLoading(self):
+        self.loaded = self.loaded + 1
+
+    def setB10VolParam(self, hot):
+        self.b10 = hot
+
+
+class BlockDesignProbe:
+    """a block design (collaborator of AssemblyBlueprint._createBlock): construct() records its arguments"""
+
+    def construct(self, cs, blueprint, axialIndex, axialMeshPoints, height, xsType, materialInput):
+        self.args = (axialIndex, axialMeshPoints, height, xsType, materialInput)
+        return new(BlockProbe, loaded=0, b10=None, design=self)
+
+
+@lemma(overrides=BLK, gen={"k": (0, 2), "skip": (0, 2), "m0": (1, 9), "m1": (1, 9), "m2": (1, 9), "hot": [True, False]})
+def block_k_gets_the_kth_entry_of_every_list(k: int, skip: int, h0: float, h1: float, h2: float, m0: int, m1: int, m2: int,
+                                             e0: float, e1: float, e2: float, t1: float, hot: bool):
+    """AssemblyBlueprint._createBlock, assembly of 3 blocks, block k = 0..2: the block design is asked for a block with the
+    k-th height, mesh points and xs type, and with the k-th entry of every block-wide / by-component modification list -
+    except entries '' or None (position `skip` of the enrichment list is ''/None), which are left out.
+    Stand-ins: BlockDesignProbe / BlockProbe."""
+    k, skip = choose(k, 0, 2), choose(skip, 0, 2)
+    enr = [e0, e1, e2]
+    enr[skip] = "" if skip == 1 else None
+    mm = modifications({"U235_wt_frac": enr, "TD_frac": [t1, "", t1]}, {"fuel": {"ZR_wt_frac": [e0, e1, e2]}, "clad": {"TD_frac": ["", "", ""]}})
+    a = assemblyDesign(3, [h0, h1, h2], [m0, m1, m2], ["A", "B", "C"], mm)
+    d = new(BlockDesignProbe, args=None)
+    bp = new(Bp)
+    b = a._createBlock({"inputHeightsConsideredHot": hot}, bp, d, k)
+    idx, mesh, height, xs, matIn = d.args
+    assert idx == k and mesh == [m0, m1, m2][k] and eq(height, [h0, h1, h2][k]) and xs == "ABC"[k], "the k-th height, mesh, xs type"
+    expect = {}
+    if k != skip:
+        expect["U235_wt_frac"] = [e0, e1, e2][k]
+    if k != 1:
+        expect["TD_frac"] = t1
+    assert matIn == {"byBlock": expect, "fuel": {"ZR_wt_frac": [e0, e1, e2][k]}, "clad": {}}, "the k-th modification entries"
+    assert b.loaded == 1 and b.b10 == hot and same(b.design, d)
+
+
+class PDefs:
+    """parameter definitions of the assembly: one parameter ('buGroup') is assigned in blueprints"""
+
+    def inCategory(self, cat):
+        return [new(Design, name="buGroup")] if cat == "assign in blueprints" else []
+
+
+class PMapB:
+    """parameter collection viewed as a name -> value map (attribute and item access are the same store)"""
+
+    def __setitem__(self, k, v):
+        setattr(self, k, v)
+
+
+class AssemProbe:
+    """the assembly class chosen for the blocks (collaborator): name, parameters, children in the order added"""
+
+    def __init__(self, name):
+        self.name = name
+        self.p = new(PMapB, assemNum=7, flags=None, RadMesh=None, AziMesh=None, buGroup=None, paramDefs=new(PDefs))
+        self.children = []
+        self.spatialGrid = None
+
+    def add(self, b):
+        self.children.append(b)
+
+
+class StackBlock:
+    """a constructed block: remembers its design and position"""
+
+    def makeName(self, assemNum, axialIndex):
+        return ("B", assemNum, axialIndex)
+
+
+def createBlockContract(self, cs, blueprint, bDesign, axialIndex):
+    """contract of AssemblyBlueprint._createBlock used here: a new block made from that design for that axial index
+    (what it is made with: block_k_gets_the_kth_entry_of_every_list)"""
+    return new(StackBlock, design=bDesign, index=axialIndex, name=None)
+
+
+def assemClassContract(clsOrSelf, blocks):
+    """contract of AssemblyBlueprint.getAssemClass: some assembly class"""
+    return AssemProbe
+
+
+@lemma(overrides=BLK, stubs={"armi.reactor.blueprints.assemblyBlueprint:AssemblyBlueprint._createBlock": "createBlockContract",
+                             "armi.reactor.blueprints.assemblyBlueprint:AssemblyBlueprint.getAssemClass": "assemClassContract"},
+       gen={"nb": (1, 4), "rad": [None, 0, 1, 3], "bu": [None, 0, 2]})
+def assembly_stacks_the_blocks_in_the_specified_order(nb: int, rad: int, bu: int):
+    """AssemblyBlueprint._constructAssembly (+ AxialGrid.fromNCells), 1-4 blocks: the assembly has the blueprint's name, one
+    block per block design in the SPECIFIED ORDER (block k made from design k for axial index k, named by assembly number and
+    k), an axial grid with one cell per block that belongs to the assembly, the mesh points given (1 when absent) and the
+    parameters assigned in blueprints.  Stand-ins: AssemProbe / PMapB / PDefs / StackBlock; _createBlock, getAssemClass by
+    contract."""
+    nb = choose(nb, 1, 4)
+    a = assemblyDesign(nb, [1.0] * nb, [1] * nb, ["A"] * nb, modifications({}, {}))
+    a.flags = None
+    a.radialMeshPoints = rad
+    a.azimuthalMeshPoints = None
+    a.buGroup = bu
+    designs = list(a.blocks)
+    asm = a._constructAssembly({}, new(Bp))
+    assert isinstance(asm, AssemProbe) and asm.name == "fuelAssem"
+    assert len(asm.children) == nb
+    for k in range(nb):
+        b = asm.children[k]
+        assert same(b.design, designs[k]) and b.index == k, "block k comes from block design k"
+        assert b.name == ("B", 7, k)
+    assert same(asm.spatialGrid.armiObject, asm)
+    zb = asm.spatialGrid._bounds[2]
+    assert len(zb) == nb + 1 and all(eq(zb[i], i) for i in range(nb + 1)), "one axial cell per block"
+    assert asm.p.RadMesh == (rad if rad else 1) and asm.p.AziMesh == 1
+    assert asm.p.buGroup == bu, "blueprint-assigned parameter"
